@@ -27,6 +27,7 @@ import (
 	"runtime/debug"
 	"sort"
 	"strings"
+	"sync/atomic"
 	"syscall"
 	"time"
 
@@ -490,6 +491,12 @@ func runChildren(o Opts, dir string, basesFile string, inputs []cInput) (map[int
 	return results, died, diedMsg, firstErr
 }
 
+// codecDeaths counts child-process deaths in this engine run. Each death costs a process start;
+// once there are this many the violation is established and the remaining inputs are skipped.
+var codecDeaths int32
+
+const codecMaxDeaths = 60
+
 func runChildrenSeq(o Opts, dir string, basesFile string, inputs []cInput) (map[int]cResult, map[int]string, map[int]string, error) {
 	if len(inputs) == 0 {
 		return map[int]cResult{}, map[int]string{}, map[int]string{}, nil
@@ -513,6 +520,9 @@ func runChildrenSeq(o Opts, dir string, basesFile string, inputs []cInput) (map[
 	diedMsg := map[int]string{}
 	start := 0
 	for start < len(inputs) {
+		if atomic.LoadInt32(&codecDeaths) >= codecMaxDeaths {
+			break
+		}
 		cmd := exec.Command(os.Args[0], "codec-child", "-out", dir, basesFile, inFile, fmt.Sprint(start))
 		var stderr bytes.Buffer
 		cmd.Stderr = &stderr
@@ -586,6 +596,7 @@ func runChildrenSeq(o Opts, dir string, basesFile string, inputs []cInput) (map[
 			return nil, nil, nil, fmt.Errorf("child failed before handling anything: %v: %s", werr, msg)
 		}
 		died[idx] = class
+		atomic.AddInt32(&codecDeaths, 1)
 		if len(msg) > 600 {
 			msg = msg[:600]
 		}
@@ -1305,7 +1316,11 @@ func runCodec(o Opts) error {
 		}
 		r, ok := results[i]
 		if !ok {
-			w.OracleFail("codec-no-result", "no result for this input", desc)
+			if atomic.LoadInt32(&codecDeaths) >= codecMaxDeaths {
+				w.Count("skipped_after_many_process_deaths", 1)
+			} else {
+				w.OracleFail("codec-no-result", "no result for this input", desc)
+			}
 			continue
 		}
 		outs := []cOne{r.MMap}
@@ -1618,7 +1633,11 @@ func codecFallback(o Opts, ctx *codecCtx, work string) error {
 		}
 		r, ok := results[k]
 		if !ok {
-			w.OracleFail("fallback-no-result", "no result", desc)
+			if atomic.LoadInt32(&codecDeaths) >= codecMaxDeaths {
+				w.Count("skipped_after_many_process_deaths", 1)
+			} else {
+				w.OracleFail("fallback-no-result", "no result", desc)
+			}
 			continue
 		}
 		if k == 0 {
